@@ -247,6 +247,33 @@ def gen(tier, rng):
         for s in stmts:
             calls += [sess.E(s), "R5000"]
         cases.append(Case(sess.session(calls), sig=" / ".join(stmts), tag="sequence", meta=("seq", stmts, expect)))
+    # a function parameter is a variable like any other: it has the type its own name gives it under the DEFtype statements in
+    # force (not the type of the function's name), also when the value passed is 0 or "" and nothing is stored for it
+    PARAMS = [
+        (["DEFSTR F", "DEF FNA(X)=X+1", "PRINT FNA(1);FNA(0)"], " 2  1 \n"),
+        (["DEFDBL F", "DEF FNA(X)=X+0.1", "PRINT FNA(0)"], " 0.1 \n"),
+        (["DEFINT F", "DEF FNB(X)=X+.5", "PRINT FNB(0);FNB(1)"], " 0.5  1.5 \n"),
+        (["DEFSTR X", 'DEF FNA(X)=X+"a"', 'PRINT FNA("");FNA("b")'], "aba\n"),
+        (["DEFSTR A-Z", "DEF FNA(X!)=X!+1", "PRINT STR$(FNA(0))"], " 1\n"),
+        (["DEFINT X", "DEFSTR F", "DEF FNA$(X)=STR$(X/2)", "PRINT FNA$(0);FNA$(3)"], " 0 1.5\n"),
+        (["DEFDBL X", "DEF FNA(X)=X+1/3", "PRINT FNA(0)"], " 0.3333333432674408 \n"),
+        (["DEFSTR N", "DEF FNA(X,Y)=X*10+Y", "PRINT FNA(0,0);FNA(0,1);FNA(1,0)"], " 0  1  10 \n"),
+    ]
+    for stmts, want in PARAMS:
+        for pre in ([], ["X=5:Y=6"], ["CLEAR"]):
+            if pre and pre[0].startswith("X=") and any("DEFSTR X" in t or "DEFSTR A-Z" in t for t in stmts):
+                continue
+            # the DEFtype statements come first; a value in the global of the parameter's name must not matter
+            k = max(i for i, t in enumerate(stmts) if t.startswith("DEF") and not t.startswith("DEF FN")) + 1
+            seq = stmts[:k] + pre + stmts[k:]
+            if pre == ["CLEAR"]:
+                seq = pre + stmts
+            seq = ["%d %s" % (10 * (i + 1), t) for i, t in enumerate(seq)] + ["RUN"]      # DEF FN is a program statement
+            expect = [("none",)] * (len(seq) - 1) + [("print", want)]
+            calls = ["R5000"]
+            for t in seq:
+                calls += [sess.E(t), "R5000"]
+            cases.append(Case(sess.session(calls), sig=" / ".join(seq), tag="parameter", meta=("seq", seq, expect)))
     return cases
 
 
